@@ -104,6 +104,8 @@ struct EncGenParams
     size_t boundaryWeight{3};  // weight of configuration-derived lengths (others: 4 small, 2 uniform, 1 huge)
     size_t frameBudget{70000};
     bool beyond16Bit{false};   // maxima above 65559 (not for C07, whose domain ends there)
+    bool allowErrorFlag{false};  // packets whose common flags carry errorInPayload (0x40): legal input of the encoder-only properties
+                                 // (C07 - C10); the round-trip property C01 excludes them because a decoder drops such messages
 };
 
 inline rc::Gen<EncCase> genEncCase(const EncGenParams& params)
@@ -142,6 +144,8 @@ inline rc::Gen<EncCase> genEncCase(const EncGenParams& params)
             r.ifId = *anyInt<uint32_t>();
             r.vendorId = *anyInt<uint16_t>();
             r.flags = static_cast<uint8_t>(*anyInt<uint8_t>() & ~0x40);
+            if (params.allowErrorFlag && *range<int>(0, 5) == 0)
+                r.flags = static_cast<uint8_t>(r.flags | 0x40);
             r.viaApi = *range<uint8_t>(0, 1);
             // one typed packet in eight: the payload is resized in place after it was handed to the packet
             if (r.kind >= rkCan && r.kind <= rkEthernet && *range<int>(0, 7) == 0)
